@@ -1189,6 +1189,109 @@ def lemma_derive_step(case):
         reset_table()
 
 
+
+
+def c15_two_vocab(case):
+    for call in case["calls"]:
+        V = call["vocab"]
+        stoi = {s_: i for i, s_ in enumerate(V)}
+        itos = {i: s_ for s_, i in stoi.items()}
+        sc = call["selfies"]
+        items = _tok(sc)
+        try:
+            lab, hot = sf.selfies_to_encoding(sc, stoi, enc_type="both")
+            flat = sf.batch_selfies_to_flat_hot([sc], stoi)
+            back = sf.batch_flat_hot_to_selfies(flat, itos)
+        except Exception as ex:  # noqa
+            return bad("C15:second-vocabulary", "after the earlier calls %r, encoding %r with vocabulary %r raised %r" % ([c["selfies"] for c in case["calls"]], sc, V, ex))
+        want = [stoi[x] for x in items]
+        wh = [[1 if j == k else 0 for j in range(len(V))] for k in want]
+        if list(lab) != want or [list(r) for r in hot] != wh or list(back) != [sc] or [list(f) for f in flat] != [[x for r in wh for x in r]]:
+            return bad("C15:second-vocabulary", "in a process that first encoded %r, encoding %r with vocabulary %r gives label %r one-hot %r (expected %r), flat-hot round trip %r"
+                       % (case["calls"][0]["selfies"], sc, V, lab, hot, wh, back))
+    return ok()
+
+
+
+def lemma_ring_order(case):
+    """public witness: derive the same graph through selfies.decoder and read the written neighbour order back"""
+    from . import oderiv, docs
+    reset_table()
+    set_table({"C": 9, "?": 9, "O": 2})
+    try:
+        cands = [tuple(c) for c in case["candidates"]]
+        # chain 0-1-2-3 with branch atom 4 on atom 1: derivation order is 0, 1, 4(branch), 2, 3 -> rename to derivation indices
+        order = {0: 0, 1: 1, 4: 2, 2: 3, 3: 4}
+        sym = ["[C]", "[C]", "[Branch1]", "[C]", "[C]", "[C]", "[C]"]
+        pos_of_atom = {0: 0, 1: 1, 2: 3, 3: 5, 4: 6}   # derivation index -> position in sym after which ring symbols go
+        ins = {}
+        for (l, r) in cands:
+            dl, dr = sorted((order[l], order[r]))
+            q = dr - dl - 1
+            ins.setdefault(dr, []).extend(["[Ring1]", docs.DOC_INDEX[q]])
+        out = []
+        d = -1
+        for i, t in enumerate(sym):
+            out.append(t)
+            if t == "[C]" and not (i == 3 and False):
+                pass
+        # rebuild symbol list with ring symbols right after the closing atom
+        seq = ["[C]", "[C]", "[Branch1]", "[C]"]
+        x = []
+        atom_i = -1
+        tokens = [("a", 0), ("a", 1), ("b", None), ("i", None), ("a", 2), ("a", 3), ("a", 4)]
+        for kind, _ in tokens:
+            if kind == "a":
+                atom_i += 1
+                x.append("[C]")
+                if atom_i == 2:
+                    # ring symbols inside the one-symbol branch would exceed its budget: put them on the main chain is impossible
+                    pass
+                x.extend(ins.get(atom_i, []) if atom_i != 2 else [])
+            elif kind == "b":
+                x.append("[Branch1]")
+            else:
+                n_in_branch = 1 + len(ins.get(2, []))
+                x.append(docs.DOC_INDEX[n_in_branch - 1])
+            if kind == "a" and atom_i == 2:
+                x.extend(ins.get(2, []))
+        s = "".join(x)
+        toks = _tok(s)
+        dres = oderiv.derive(toks, sf.get_semantic_constraints())
+        r = _dec(s)
+        if r[0] != "ok" or dres.error is not None:
+            return ok("witness not decodable")
+        pb = oderiv.compare_with_output(dres, oread.read_smiles(r[1]))
+        if pb:
+            return bad("%s:ring-placement" % case.get("prop", "C02"), "ring candidates %r: decoder(%r) = %r: %s" % (cands, s, r[1], pb))
+        return ok()
+    finally:
+        reset_table()
+
+
+
+def c10_history(case):
+    try:
+        if not set_table(case["table_a"]):
+            return ok("table A rejected")
+        _dec(case["warm"])
+        if not set_table(case["table_b"]):
+            return ok("table B rejected")
+        s = case["smiles"]
+        e = _enc(s, strict=True)
+        if e[0] != "ok":
+            return ok("not accepted under B")
+        d = _dec(e[1])
+        if d[0] != "ok":
+            return bad("C10:undecodable:after-table-change", "after decoding %r under %s and switching to %s, encoder(%r) = %r is rejected by the decoder (%s)"
+                       % (case["warm"], _short(case["table_a"]), _short(case["table_b"]), s, e[1], d[0]))
+        e2 = _enc(d[1], strict=True)
+        if e2 != ("ok", e[1]):
+            return bad("C10:unstable:after-table-change", "after a table change, encoder(%r) = %r decodes to %r, which re-encodes to %s" % (s, e[1], d[1], e2))
+        return ok()
+    finally:
+        reset_table()
+
 # ---------------------------------------------------------------------------
 
 KINDS = {
@@ -1222,6 +1325,9 @@ KINDS = {
     "strict_history": c06_history,
     "tv_batch": tv_batch,
     "derive_step": lemma_derive_step,
+    "two_vocab": c15_two_vocab,
+    "ring_order": lemma_ring_order,
+    "stable_history": c10_history,
     "state_fn": lemma_state_fn,
     "ring_step": lemma_ring_step,
 }
